@@ -586,6 +586,9 @@ func gen(c *ex.Ctx) {
 		}
 	}
 	wantClear := []string{"p.intermediate = p.intermediate[:0]", "p.final = rune(0)", "p.params = p.params[:0]"}
+	// (any order: what the body does is interpreted statement by statement — Props.C02Acts.clear_body)
+	sort.Strings(cleared)
+	sort.Strings(wantClear)
 	if strings.Join(cleared, "|") != strings.Join(wantClear, "|") {
 		c.Fail("clear: body is %q, the model knows %q", cleared, wantClear)
 		return
@@ -628,7 +631,9 @@ func gen(c *ex.Ctx) {
 					if sawPeek {
 						stops = "true"
 					}
-				case "bldr.WriteRune(nextRune)":
+				case "grapheme, rest, w, _ = uniseg.FirstGraphemeClusterInString(bldr.String(), -1)":
+					// the test must come before the cluster is measured (whether the rune was already
+					// written to the builder does not matter: the builder is not read again after the break)
 					sawPeek = false
 				}
 			}
